@@ -43,13 +43,15 @@ class ReduceCapacity:
         resource_name = self.resource_name
         factor = self.factor
         original_capacity = resource._capacity
+        removed = 0  # amount actually taken out of `available` at activation
 
         def activate(e: Event) -> None:
+            nonlocal removed
             new_capacity = original_capacity * factor
-            resource._capacity - new_capacity
             resource._capacity = new_capacity
             # Clamp available to not exceed new capacity
             if resource._available > new_capacity:
+                removed = resource._available - new_capacity
                 resource._available = new_capacity
             logger.info(
                 "[FaultInjection] Reduced '%s' capacity to %.1f (factor=%.2f) at %s",
@@ -60,10 +62,14 @@ class ReduceCapacity:
             )
 
         def deactivate(e: Event) -> None:
-            capacity_increase = original_capacity - resource._capacity
+            nonlocal removed
             resource._capacity = original_capacity
-            # Restore available by the same amount capacity increased
-            resource._available += capacity_increase
+            # Give back exactly what activation removed (grants held at
+            # activation were never taken out of `available`), then serve
+            # anyone who was only waiting because of the reduction.
+            resource._available += removed
+            removed = 0
+            resource._wake_waiters()
             logger.info(
                 "[FaultInjection] Restored '%s' capacity to %.1f at %s",
                 resource_name,
